@@ -403,9 +403,14 @@ static int history_get_count(LHAPM2Decoder *decoder, unsigned int code)
 
 	if (code < 15) {
 		return (int) code + 2;
-	} else {
+	} else if (code - 15 < sizeof(copy_decode) / sizeof(*copy_decode)) {
 		return decode_variable_length(&decoder->bit_stream_reader,
 		                              copy_decode, code - 15);
+	} else {
+		// Not a valid copy code: the code tree can contain
+		// values beyond the end of the copy_decode table.
+
+		return -1;
 	}
 }
 
